@@ -38,6 +38,11 @@ def budget(tier):
 @st.composite
 def sort_case(draw, tier, max_records=60, force_all_ref=None):
     g = draw(gen_graph.rgfa(max_chroms=3, max_elements=4, cycles=True))
+    if draw(st.integers(0, 3)) == 0:
+        # a reference built on a region: the contig name itself contains ':' and '-'
+        ren = {c["name"]: c["name"] + ":1000-2000" for c in g["chroms"][:1]}
+        for d_ in g["nodes"].values():
+            d_["sn"] = ren.get(d_["sn"], d_["sn"])
     ids = list(g["nodes"])
     untag = draw(st.lists(st.sampled_from(ids), max_size=max(1, len(ids) // 5), unique=True))
     extra = c08.tag_graph(g, untag)
@@ -142,6 +147,8 @@ def classes_of(case, nodes, exp):
         cl.append("reverse_anchor")
     if len({t[0][1] for t in exp} - {"sn:Z:unknown"}) >= 2:
         cl.append(">=2_contigs")
+    if any(":" in t[0][1][5:] for t in exp):
+        cl.append("contig_name_with_colon")
     return cl
 
 
